@@ -135,15 +135,19 @@ class Gen:
                 for l in gen_define(r, self.names, self.safe):
                     out.append(self.dirline(l))
             elif depth > 0:
+                # a group may be empty (nothing between two directives of a chain): it still is the selected group
+                def group():
+                    return [] if r.random() < 0.12 else self.block(depth - 1)
+
                 out.append(self.dirline(self.open_line()))
-                out += self.block(depth - 1)
+                out += group()
                 for _ in range(r.choice([0, 0, 1, 1, 2, 3])):
                     c = gen_cond(r, self.names) if r.random() >= self.p_err else r.choice(["1 +", "", ")"])
                     out.append(self.dirline(f"#elif {c}"))
-                    out += self.block(depth - 1)
+                    out += group()
                 if r.random() < 0.5:
                     out.append(self.dirline("#else"))
-                    out += self.block(depth - 1)
+                    out += group()
                 out.append(self.dirline("#endif"))
             else:
                 out.append(self.code())
